@@ -26,6 +26,7 @@ import (
 	"os"
 	"path/filepath"
 	"sort"
+	"strings"
 	"sync"
 	"time"
 
@@ -1393,6 +1394,15 @@ func (c *cluster) followResizeInstruction(instr *ResizeInstruction) error {
 					return err
 				}(); err != nil {
 					return errors.Wrap(err, "copying remote shard")
+				}
+
+				// The schema sent with the instruction carries the
+				// coordinator's bit depth for an int field; the copied values
+				// may need more.
+				if strings.HasPrefix(src.View, viewBSIGroupPrefix) {
+					if err := f.growBitDepthTo(frag); err != nil {
+						return errors.Wrap(err, "adopting bit depth")
+					}
 				}
 			}
 			return nil
